@@ -1158,6 +1158,244 @@ def binary_oracles(ctx, rep):
         confirm(ctx, rep, runs, res, evaluate, cwd_files=[{}, j["files"], {}, {}, {"qzdflt": j["files"][j["name"]]}])
 
 
+# --------------------------------------------------------------------------- B7: a section alone and after others
+
+FRAGMENTS = {   # hunk-header code fragments (function/class context lines), per language
+    "rust": ["pub fn compute(value: u32) -> String {", "impl Foo {", "fn main() {"],
+    "python": ["def main(argv=None):", "class Foo(Bar):"],
+    "c": ["int main(int argc, char **argv) {"],
+    "cpp": ["template <typename T> class Foo : public Bar {"],
+    "js": ["function main(argv) {", "export default class Foo extends Bar {"],
+    "ruby": ["class Foo < Bar", "  def main(argv = nil)"],
+    "sh": ["foo() {"],
+    "make": ["all: main.o util.o"],
+}
+UNBALANCED = {  # a last line that leaves the parser inside a construct
+    "rust": "/* an open comment", "c": "/* an open comment", "cpp": "/* an open comment",
+    "js": "let s = `an open template", "python": "    \'\'\'an open docstring", "html": "<!-- an open comment",
+    "ruby": "=begin", "sh": "cat <<EOF", "md": "```", "yaml": "key: |", "json": "  \"open", "make": "define X",
+    "docker": "RUN echo \\", "plain": "plain",
+}
+
+
+def hunk_code(lines):
+    """Event letters for the model: c context, b buffered, f buffered after a flush (minus after plus)."""
+    out, prev = "", " "
+    for ln in lines:
+        k = ln[:1]
+        if k == " " or k == "":
+            out += "c"
+        elif k == "-" and prev == "+":
+            out += "f"
+        else:
+            out += "b"
+        prev = k
+    return out
+
+
+def split_hunks(hunk_lines):
+    hs = []
+    for ln in hunk_lines:
+        if ln.startswith("@@"):
+            hs.append([])
+        else:
+            hs[-1].append(ln)
+    return hs
+
+
+def gen_neighbour(rng, langs, avoid_names):
+    """One preceding file section: (diff lines, model sections [(minus, plus, hunks code)], kind)."""
+    kind = rng.choice(["modify", "modify", "modify-unbalanced", "modify-unbalanced", "delete", "add", "rename",
+                       "rename-pure", "mode", "binary"])
+    lang = rng.choice(langs)
+    name = pick_name(rng, lang, rng.choice(["wvub", "kjyd", "pmre"]))
+    while name in avoid_names:
+        name = pick_name(rng, rng.choice(langs), rng.choice(["wvub", "kjyd", "pmre", "hgtc"]))
+    path = rng.choice(["", "src/"]) + name
+    if kind in ("modify", "modify-unbalanced"):
+        hunks = gen_hunks(rng, lang)
+        if kind == "modify-unbalanced":
+            hunks = hunks + [rng.choice([" ", "+"]) + UNBALANCED.get(lang, "x")]
+        code = ".".join(hunk_code(h) for h in split_hunks(hunks))
+        return gen_file_section(rng, lang, path, path) + hunks, [(path, path, code)], kind + ":" + lang
+    if kind == "delete":
+        hunks = gen_hunks(rng, lang, "delete")
+        return gen_file_section(rng, lang, path, path, "delete") + hunks, \
+            [(path, None, ".".join(hunk_code(h) for h in split_hunks(hunks)))], kind + ":" + lang
+    if kind == "add":
+        hunks = gen_hunks(rng, lang, "add")
+        return gen_file_section(rng, lang, path, path, "add") + hunks, \
+            [(None, path, ".".join(hunk_code(h) for h in split_hunks(hunks)))], kind + ":" + lang
+    if kind == "rename":
+        l2 = rng.choice(langs)
+        new = rng.choice(["", "lib/"]) + pick_name(rng, l2, "hgtc")
+        if new in avoid_names or new == path:
+            new = "lib/zz" + name
+        hunks = gen_hunks(rng, l2)
+        return gen_file_section(rng, l2, path, new, "rename") + hunks, \
+            [(path, new, "_"), (path, new, ".".join(hunk_code(h) for h in split_hunks(hunks)))], kind + ":" + lang + ">" + l2
+    if kind == "rename-pure":
+        new = "lib/zz" + name
+        return ["diff --git a/%s b/%s" % (path, new), "similarity index 100%", "rename from " + path, "rename to " + new], \
+            [(path, new, "_")], kind + ":" + lang
+    if kind == "mode":
+        return ["diff --git a/%s b/%s" % (path, path), "old mode 100644", "new mode 100755"], [], kind
+    return ["diff --git a/%s b/%s" % (path, path), "index 1111111..2222222 100644",
+            "Binary files a/%s and b/%s differ" % (path, path)], [], kind
+
+
+def section_rows(outb, path):
+    """Raw rows of stdout from the file header row of `path` (its visible text is exactly the path) on."""
+    raw = outb.split(b"\n")
+    dec = decode(outb)
+    idx = [i for i, r in enumerate(dec) if row_text(r).strip() == path]
+    if not idx:
+        return None
+    return raw[idx[0]:]
+
+
+def fg_cells(outb, bg, start_path=None):
+    """Rows (after the header row of start_path) as lists of (char, fg) of the cells with background `bg`."""
+    dec = decode(outb)
+    start = 0
+    if start_path is not None:
+        idx = [i for i, r in enumerate(dec) if row_text(r).strip() == start_path]
+        start = idx[0] if idx else 0
+    out = []
+    for r in dec[start:]:
+        cells = [(it[1], it[2]) for it in r if it[0] == "c" and it[3] == bg]
+        if cells:
+            out.append(cells)
+    return out
+
+
+def strip_cells(cells):
+    while cells and cells[0][0] == " ":
+        cells = cells[1:]
+    while cells and cells[-1][0] == " ":
+        cells = cells[:-1]
+    return cells
+
+
+def eval_b7(res, sink, j):
+    alone, after, body = res
+    if any(r[0] != 0 for r in res):
+        return
+    a, b = section_rows(alone[1], j["tpath"]), section_rows(after[1], j["tpath"])
+    if a is None or b is None:
+        sink.violation("lifetime:section-header-missing", "the file header row of %s was not found" % j["tpath"],
+                       replay_obj("B7", [j["runs"][0], j["runs"][1]], tpath=j["tpath"]))
+        return
+    if a != b:
+        k = next((i for i in range(min(len(a), len(b))) if a[i] != b[i]), min(len(a), len(b)))
+        sink.violation("lifetime:section-depends-on-preceding-sections",
+                       "the section of %s is rendered differently after %s than alone: row %d %r vs %r" % (
+                           j["tpath"], j["neighbours"], k, a[k][:200].decode("utf-8", "replace") if k < len(a) else None,
+                           b[k][:200].decode("utf-8", "replace") if k < len(b) else None),
+                       replay_obj("B7", [j["runs"][0], j["runs"][1]], tpath=j["tpath"]))
+    # the fragment in the hunk header (after the neighbours) is coloured as the same text is as the
+    # first line of a hunk body of the same file
+    frag = [strip_cells(c) for c in fg_cells(after[1], j["hh_bg"], j["tpath"])]
+    frag = [c for c in frag if "".join(ch for ch, _ in c) == j["fragment"].strip()]
+    bodyrows = [strip_cells(c) for c in fg_cells(body[1], j["zero_bg"], j["tpath"])]
+    bodyrows = [c for c in bodyrows if "".join(ch for ch, _ in c) == j["fragment"].strip()]
+    if frag and bodyrows and frag[0] != bodyrows[0]:
+        sink.violation("lifetime:fragment-not-coloured-as-body",
+                       "the hunk-header fragment %r of %s (after %s) is not coloured as the same text in a hunk body: %r vs %r" % (
+                           j["fragment"], j["tpath"], j["neighbours"], frag[0][:12], bodyrows[0][:12]),
+                       replay_obj("B7f", [j["runs"][1], j["runs"][2]], tpath=j["tpath"], fragment=j["fragment"],
+                                  hh_bg=list(j["hh_bg"]), zero_bg=list(j["zero_bg"])))
+
+
+def lifetime_oracles(ctx, rep):
+    rng = ctx.rng
+    themes = list_themes(ctx)
+    langs = list(LANGS)
+    hook = ctx.hook()
+    mdl = ctx.model("drv_superimpose") if ctx.drivers_ok else None
+    jobs = []
+    for _ in range(ctx.n(60, 1200)):
+        tl = rng.choice(sorted(FRAGMENTS))
+        tname = pick_name(rng, tl, "qzxa")
+        tpath = rng.choice(["", "src/"]) + tname
+        fragment = rng.choice(FRAGMENTS[tl])
+        hunks = []
+        start = rng.randint(5, 60)
+        for _h in range(rng.randint(1, 2)):
+            h = gen_hunk(rng, tl, start)
+            h[0] = h[0].split(" @@")[0] + " @@ " + fragment
+            hunks += h
+            start += 40
+        tsec = gen_file_section(rng, tl, tpath, tpath) + hunks
+        neigh, msecs, kinds = [], [], []
+        for _k in range(rng.randint(1, 3)):
+            lines, ms, kind = gen_neighbour(rng, langs, {tname})
+            neigh += lines
+            msecs += ms
+            kinds.append(kind)
+        msecs.append((tpath, tpath, ".".join(hunk_code(h) for h in split_hunks(hunks))))
+        body_diff = gen_file_section(rng, tl, tpath, tpath) + ["@@ -1,2 +1,2 @@", " " + fragment, "-a", "+b"]
+        th = rng.choice(themes["dark"])
+        tc = rng.choice(["always", "never"])
+        args = ["--syntax-theme", th, "--true-color", tc, "--width", "200"]
+        if rng.random() < 0.3:
+            args.append("-n")
+        if rng.random() < 0.15:
+            args.append("-s")
+        cargs, meta = gen_config(rng, "syntax-all", tc)
+        # keep the hunk-header row to the fragment alone for the fragment/body comparison
+        k = cargs.index("--hunk-header-style")
+        cargs[k + 1] = " ".join(w for w in cargs[k + 1].split() if w not in ("file", "line-number"))
+        use_default = rng.random() < 0.4     # delta's defaults: hunk-header-style = "line-number syntax"
+        a = args + ([] if use_default else cargs)
+        bgs = {name: bg for bg, (name, _, _) in meta.items()}
+        mk = lambda lines: ("\n".join(lines) + "\n").encode()
+        runs = [(a, mk(tsec), None), (a, mk(neigh + tsec), None), (args + cargs, mk(neigh + body_diff), None)]
+        jobs.append(dict(tpath=tpath, fragment=fragment, neighbours=kinds, runs=runs, msecs=msecs, lang=tl,
+                         hh_bg=bgs["hunk_header"], zero_bg=bgs["zero"], default=use_default))
+    # model predictions (same sections as events)
+    names = sorted({n for j in jobs for m, p, _ in j["msecs"] for n in (m, p) if n})
+    cands = sorted({c for n in names for c in name_candidates(n)})
+    byext = {}
+    for k, r in zip(cands, hook.ask(["superimpose.byext " + hx(k) for k in cands])):
+        byext[k] = None if r == "ok -" else unhxs(r.split()[1])
+    fb = unhxs(hook.ask(["superimpose.fallback " + hx("txt")])[0].split()[1])
+    reqs = []
+    for j in jobs:
+        keys = sorted({c for m, p, _ in j["msecs"] for n in (m, p) if n for c in name_candidates(n)})
+        tbl = "T" + ",".join("%s:%s" % (k.encode().hex(), byext[k].encode().hex() if byext[k] is not None else "-") for k in keys)
+        f = ["superimpose.lifetime", hx(fb), tbl, str(len(j["msecs"]))]
+        for m, p, code in j["msecs"]:
+            f += [hx(m) if m else "-", hx(p) if p else "-", code or "_"]
+        reqs.append(" ".join(f))
+    model = mdl.ask(reqs) if mdl else [None] * len(reqs)
+    flat = [r for j in jobs for r in j["runs"]]
+    results = parallel_map(lambda r: run_case(ctx, r[0], r[1], r[2]), flat)
+    for n, (j, m) in enumerate(zip(jobs, model)):
+        res = results[3 * n:3 * n + 3]
+        rep.count("lifetime:target:" + j["lang"])
+        for k in j["neighbours"]:
+            rep.count("lifetime:neighbour:" + k.split(":")[0])
+        if any(r[0] != 0 for r in res):
+            rep.count("binary:nonzero-exit")
+            continue
+        other_lang = any(":" in k and k.split(":")[1].split(">")[-1] != j["lang"] for k in j["neighbours"])
+        rep.case(key=("b7", sha(j["runs"][1][1]), tuple(j["runs"][1][0])), nontrivial=other_lang,
+                 sample=dict(op="binary-section-after-neighbours", target=j["tpath"], neighbours=j["neighbours"],
+                             fragment=j["fragment"], args=j["runs"][0][0]))
+        probe = Probe()
+        eval_b7(res, probe, j)
+        if m is not None:
+            model_ok = m.startswith("ok") and all(x.split(":")[1:3] == x.split(":")[3:5] for x in m.split(" ")[1:])
+            # the model claiming "every element goes through the current file's own fresh highlighter"
+            # must imply that the binary renders the section independently of its predecessors
+            dependent = "lifetime:section-depends-on-preceding-sections" in probe.v
+            rep.corr_case("superimpose.lifetime", m.startswith("ok") and ((not model_ok) or not dependent),
+                          dict(request=reqs[n][:400], model=m[:400], binary_failures=probe.v))
+        confirm(ctx, rep, j["runs"], res, lambda r, sink, j=j: eval_b7(r, sink, j))
+
+
+
 def run(ctx, rep):
     rep.rule = ("hook level: random (syntect sections, diff sections) over an alphabet with non-ASCII, zero-width, "
                 "tab and newline characters, random partitions incl. empty sections, trailing-newline variants, "
@@ -1165,8 +1403,11 @@ def run(ctx, rep):
                 "non-trivial = more than one section on a side. Binary level: generated git diffs in 14 languages "
                 "(within-line edits, long lines, empty lines, 1-2 files) x style configurations "
                 "(default / all-syntax / no-syntax / mixed, random attributes) x options x several themes of one "
-                "class (+ none); non-trivial = the themes really gave different foregrounds. Distinct by request / "
-                "(diff hash, args).")
+                "class (+ none); non-trivial = the themes really gave different foregrounds. Section independence: a "
+                "target file section with hunk-header fragments rendered alone and after 1-3 neighbour sections "
+                "(modify in any of 14 languages, ending inside an open comment/string, delete, add, rename with and "
+                "without hunks, mode-only, binary); non-trivial = a neighbour of another language. Distinct by "
+                "request / (diff hash, args).")
     rep.extra_trusted += [
         "syntect: highlight_line returns sections that partition the line (checked on the sampled lines, not proved)",
         "syntect/bat assets: which colours a theme assigns; find_syntax_by_extension; ansi_colours::ansi256_from_rgb",
@@ -1176,6 +1417,7 @@ def run(ctx, rep):
     rep.assumptions += ["text syn = text diff (syntect partitions its input) for superimpose_text / theme_independent_modulo_fg"]
     correspondence(ctx, rep)
     binary_oracles(ctx, rep)
+    lifetime_oracles(ctx, rep)
 
 
 def replay(ctx, rep, obj):
@@ -1213,6 +1455,18 @@ def replay(ctx, rep, obj):
         if oracle in ("B1", "B2", "B3"):
             meta = {tuple(b): tuple(tuple(x) if isinstance(x, list) else x for x in m) for b, m in case.get("meta", [])}
             check_theme_group(rep, [o[1] for o in outs], case.get("labels", ["a", "b"]), meta, oracle == "B2", runs)
+        elif oracle == "B7":
+            a, b = section_rows(outs[0][1], case["tpath"]), section_rows(outs[1][1], case["tpath"])
+            if a != b:
+                rep.violation("lifetime:section-depends-on-preceding-sections",
+                              "the section of %s is rendered differently after other sections than alone" % case["tpath"], case)
+        elif oracle == "B7f":
+            fr = [strip_cells(c) for c in fg_cells(outs[0][1], tuple(case["hh_bg"]), case["tpath"])]
+            fr = [c for c in fr if "".join(ch for ch, _ in c) == case["fragment"].strip()]
+            bo = [strip_cells(c) for c in fg_cells(outs[1][1], tuple(case["zero_bg"]), case["tpath"])]
+            bo = [c for c in bo if "".join(ch for ch, _ in c) == case["fragment"].strip()]
+            if fr and bo and fr[0] != bo[0]:
+                rep.violation("lifetime:fragment-not-coloured-as-body", "fragment not coloured as in a hunk body", case)
         elif oracle == "B6p":
             bgs = [tuple(b) for b in case.get("bgs", [])]
             fgs = {it[2] for row in decode(outs[0][1]) for it in row if it[0] == "c" and it[3] in bgs}
